@@ -55,7 +55,7 @@ theorem C04_track_appends (c : Cfg) (o : TrackOpts) (s : St) (p : Path) (b : Byt
 theorem C04_carryIn_appends (c : Cfg) (tob : Option Tob) (force : Bool) (s : St) (p : Path) (e : Ent) (r : Rec)
     (hrec : s.recs e = some r) :
     ∃ r', (s.carryInRec c tob force p e r).1.recs e = some r' ∧ r.digests <+: r'.digests ∧ r'.path = r.path := by
-  have hpre : r.digests <+: (match s.digestDiff c r (tob.getD c.tob) with
+  have hpre : r.digests <+: (match s.carryDiff c r (tob.getD c.tob) with
       | .different a => r.digests ++ [a]
       | _ => r.digests) := by split <;> simp
   unfold St.carryInRec
@@ -67,6 +67,38 @@ theorem C04_carryIn_appends (c : Cfg) (tob : Option Tob) (force : Bool) (s : St)
     · exact ⟨_, upd_same _ _ _, hpre, rfl⟩
     · exact ⟨_, upd_same _ _ _, hpre, rfl⟩
     · exact ⟨r, hrec, List.prefix_refl _, rfl⟩
+
+/-- **C04_carryIn_mode_change_rehashes**: `carry-in --text-or-binary t` on a file recorded with another
+    mode commits the file in the new mode: afterwards the recorded mode is `t` AND the recorded current
+    digest is the digest of the present bytes in mode `t` — also when the file's metadata is unchanged
+    (before the repair of `cmd_carry_in` the metadata short-cut left the old digest next to the new mode,
+    and every later comparison reported the untouched file as changed). -/
+theorem C04_carryIn_mode_change_rehashes (c : Cfg) (tob : Option Tob) (s : St) (p : Path) (e : Ent) (r : Rec)
+    (b : Bytes) (n : Nat) (hpath : r.path = p) (hr : s.readThrough p = some (b, n)) (ht : r.tob ≠ tob.getD c.tob) :
+    ∃ r', (s.carryInRec c tob false p e r).1.recs e = some r' ∧ r'.tob = tob.getD c.tob ∧
+      r'.cur = some (digestOf c.algo (tob.getD c.tob) b) ∧ r.digests <+: r'.digests := by
+  have hr' : s.readThrough r.path = some (b, n) := by rw [hpath]; exact hr
+  unfold St.carryInRec
+  simp only
+  have htc : (false || decide (s.carryDiff c r (tob.getD c.tob) ≠ .same) || decide (r.tob ≠ tob.getD c.tob)) = true := by
+    simp [ht]
+  simp only [htc, Bool.not_true, Bool.false_eq_true, if_false]
+  cases hdd : s.carryDiff c r (tob.getD c.tob) with
+  | actualMissing =>
+    unfold St.carryDiff at hdd
+    simp only [ht, if_false, hr'] at hdd
+    split at hdd <;> cases hdd
+  | different a =>
+    obtain ⟨b', n', hrb, ha⟩ := carryDiff_different hdd
+    rw [hr'] at hrb; cases hrb
+    simp only
+    refine ⟨{ r with md := s.actualMeta p, tob := tob.getD c.tob, digests := r.digests ++ [a] }, by simp [upd], rfl, ?_, by simp⟩
+    simp [Rec.cur, ha]
+  | same =>
+    have hc := carryDiff_same_mode_change ht hdd hr'
+    simp only [hc]
+    refine ⟨{ r with md := s.actualMeta p, tob := tob.getD c.tob }, by simp [upd], rfl, ?_, by simp⟩
+    simpa [Rec.cur] using hc
 
 /-- a gentle command is none of `remove`, `untrack`, `untrack --restore-versions` -/
 theorem gentle_not_removing {cmd : Cmd} (h : cmd.gentle = true) : cmd.removing = false := by
@@ -235,6 +267,8 @@ open Repo in
 #print axioms C04_track_appends
 open Repo in
 #print axioms C04_carryIn_appends
+open Repo in
+#print axioms C04_carryIn_mode_change_rehashes
 open Repo in
 #print axioms C04_versions_persist
 open Repo in
